@@ -8,6 +8,7 @@ import (
 	"regexp"
 	"strconv"
 	"time"
+	"unsafe"
 
 	ucfg "github.com/elastic/go-ucfg"
 	"github.com/elastic/go-ucfg/parse"
@@ -260,6 +261,13 @@ func buildValue0(j J) interface{} {
 	}
 	if c, ok := j["c"]; ok {
 		cj := c.(map[string]interface{})
+		if z, _ := j["zero"].(bool); z {
+			// the zero value of Config: no fields object at all
+			if rep == "val" {
+				return ucfg.Config{}
+			}
+			return &ucfg.Config{}
+		}
 		cfg, err := ucfg.NewFrom(buildValue(cj["v"]), buildOpts(cj["opts"])...)
 		if err != nil {
 			panic("harness: embedded config source does not normalize: " + err.Error())
@@ -304,7 +312,20 @@ func buildValue0(j J) interface{} {
 		}
 		return c
 	}
-	if _, ok := j["unsup"]; ok {
+	if u, ok := j["unsup"]; ok {
+		// kinds no configuration value can be made from
+		switch u {
+		case "complex":
+			return complex(1, 2)
+		case "complex64":
+			return complex64(1)
+		case "uintptr":
+			return uintptr(3)
+		case "func":
+			return func() {}
+		case "unsafeptr":
+			return unsafe.Pointer(new(int))
+		}
 		return make(chan int)
 	}
 	if _, ok := j["badkey"]; ok {
